@@ -27,7 +27,7 @@ CONSTANTS CertKeys,    \* certificate keys, e.g. {"k1","k2","k3"}
 NONE == "none"
 TokNonces == Tokens \cup {"tf", "tg"}   \* tf: well-formed token never issued; tg: not a token at all
 AllNonces == Nonces \cup TokNonces
-Lives == {"default", "tiny", "mid"}      \* maximum token lifetime passed to the fetch
+Lives == {"default", "tiny", "mid", "zero", "neg"}      \* maximum token lifetime passed to the fetch (zero / negative: every token has expired)
 StateOrNone == AppStates \cup {NONE}
 
 \* kt: type of the certificate public key held by the record ("ed" unless the stored record was edited);
@@ -45,11 +45,12 @@ InitState(cfg) ==
    regw   |-> NONE,
    gen    |-> 0,
    cfg    |-> cfg]      \* cfg = [sw |-> storage wrapper in use, nidl |-> storage supports lookup by node id,
-                        \*        so |-> store-once back end (a node record is never overwritten)]
+                        \*        so |-> store-once back end (a node record is never overwritten),
+                        \*        rmerr |-> removing an absent entry is an error (file back end; not in memory)]
 
 Present(st) == {k \in CertKeys : st.nodes[k].present}
 Live(tok) == tok.st \in {"fresh", "old"}
-Expired(tok, life) == life = "tiny" \/ (life = "mid" /\ tok.st = "old")
+Expired(tok, life) == life \in {"tiny", "zero", "neg"} \/ (life = "mid" /\ tok.st = "old")
 
 Out(res, st) == [res |-> res, st |-> st]
 
@@ -170,6 +171,21 @@ DoFetch(st, r) ==
             ELSE Out("issued", AuthorizeCommon(st1, r.k, r.e, r.n, tok.state))
 
 (***************************************************************************)
+(* Two OVERLAPPING token fetches with the same token t for different keys: *)
+(* the token fetch is two critical sections - load + checks, then remove + *)
+(* authorise.  Fetch A has loaded the token and is parked before its       *)
+(* removal while fetch B runs to completion; then A goes on.  What stops A *)
+(* is only the removal failing for an absent entry (cfg.rmerr).            *)
+(***************************************************************************)
+TokFetch(k, e, t) == [op |-> "Fetch", k |-> k, e |-> e, n |-> t, life |-> "default", selfinfo |-> FALSE, ww |-> NONE, wk |-> NONE,
+                      wn |-> NONE, rby |-> NONE, rwith |-> NONE, rk |-> NONE, rn |-> NONE]
+DoFetchRace(st, o) ==
+  IF o.ka = o.kb \/ o.t \notin Tokens \/ ~Live(st.tokens[o.t]) \/ st.nodes[o.ka].present \/ st.nodes[o.kb].present THEN Out("skip", st)
+  ELSE LET rb == DoFetch(st, TokFetch(o.kb, o.e, o.t)) IN
+       IF st.cfg.rmerr THEN Out("onlyB", rb.st)
+       ELSE Out("both", AuthorizeCommon(rb.st, o.ka, o.e, o.t, st.tokens[o.t].state))
+
+(***************************************************************************)
 (* C03: request validation shared by authorize and fetch.                  *)
 (* v = [api, mut, nb, na, sknb, skna] on an integer grid with now = 0      *)
 (***************************************************************************)
@@ -264,6 +280,7 @@ Apply(st, o) ==
     [] o.op = "Transplant"  -> DoTransplant(st, o)
     [] o.op = "TransplantWhole" -> DoTransplantWhole(st, o)
     [] o.op = "Fetch"       -> DoFetch(st, o)
+    [] o.op = "FetchRace"   -> DoFetchRace(st, o)
     [] o.op = "Submit"      -> DoSubmit(st, o)
     [] o.op = "CreateRequest" -> Out("ok", [st EXCEPT !.gen = st.gen + 1])   \* an honest node-built request for a key outside the pool, authorised at once
     [] o.op = "GenCerts"    -> DoGenCerts(st, o)
